@@ -81,6 +81,9 @@ type Config struct {
 	StallInv int `json:"stall_inv,omitempty"`
 	// QuantumNS is the amount of virtual time slept when nothing is runnable.
 	QuantumNS int64 `json:"quantum_ns,omitempty"`
+	// TickNS: virtual time the root lets pass before every decision (0 = none). Use
+	// together with a QuantumNS that is not a multiple of the application's timer grid.
+	TickNS int64 `json:"tick_ns,omitempty"`
 	// HorizonNS bounds the virtual time a run may sit idle before it is a deadlock.
 	HorizonNS int64 `json:"horizon_ns,omitempty"`
 	// MaxSteps bounds the number of scheduling decisions.
@@ -176,6 +179,8 @@ type Sched struct {
 	ByClass map[Class]int
 	MaxPar  int
 	quiet   atomic.Bool
+	whenMu  sync.Mutex
+	whens   map[int64]struct{}
 	aborted atomic.Bool
 	// Virtual time consumed by idle waits.
 	Idle time.Duration
@@ -249,6 +254,29 @@ func Yield(class Class, label string) {
 	s.parked = append(s.parked, p)
 	s.mu.Unlock()
 	<-p.ch
+}
+
+// UniqueWhen returns the first expiry >= when that no timer of this run has been given
+// yet, and reserves it.
+func (s *Sched) UniqueWhen(when int64) int64 {
+	s.whenMu.Lock()
+	defer s.whenMu.Unlock()
+	if s.whens == nil {
+		s.whens = map[int64]struct{}{}
+	}
+	for {
+		if _, used := s.whens[when]; !used {
+			break
+		}
+		when++
+	}
+	s.whens[when] = struct{}{}
+	return when
+}
+
+func (s *Sched) sleep(d time.Duration) {
+	now := time.Now().UnixNano()
+	time.Sleep(time.Duration(s.UniqueWhen(now+int64(d)) - now))
 }
 
 // Quiet runs f with every yield point turned into a no-op. It exists for temporary
@@ -366,7 +394,7 @@ func (s *Sched) Run(done func() bool) error {
 				return nil
 			}
 			q := time.Duration(s.Cfg.QuantumNS)
-			time.Sleep(q)
+			s.sleep(q)
 			idle += q
 			s.Idle += q
 			if idle > time.Duration(s.Cfg.HorizonNS) {
@@ -375,6 +403,18 @@ func (s *Sched) Run(done func() bool) error {
 			continue
 		}
 		idle = 0
+		if s.Cfg.TickNS > 0 {
+			// every decision happens at its own virtual instant, so timers armed in
+			// different steps never share an expiry (equal expiries fire in the
+			// runtime's heap order, which is not reproducible across processes)
+			s.mu.Unlock()
+			s.sleep(time.Duration(s.Cfg.TickNS))
+			// goroutines started by timers that fired meanwhile run to their first
+			// yield point before the decision is taken
+			synctest.Wait()
+			s.mu.Lock()
+			n = len(s.parked)
+		}
 		if n > s.MaxPar {
 			s.MaxPar = n
 		}
@@ -385,7 +425,7 @@ func (s *Sched) Run(done func() bool) error {
 		if s.Cfg.StallInv > 0 && s.Ch.OneIn(s.Cfg.StallInv) {
 			s.mu.Unlock()
 			s.Stalls++
-			time.Sleep(time.Duration(s.Cfg.QuantumNS))
+			s.sleep(time.Duration(s.Cfg.QuantumNS))
 			continue
 		}
 		sort.SliceStable(s.parked, func(i, j int) bool { return s.parked[i].gid < s.parked[j].gid })
@@ -401,7 +441,7 @@ func (s *Sched) Run(done func() bool) error {
 			q.rank = r
 		}
 		if len(s.Trace) < s.KeepLog && os.Getenv("VERIF_SCHEDLOG_FULL") != "" {
-			l := "  parked:"
+			l := "  t=" + strconv.FormatInt(time.Now().UnixNano()%1_000_000_000_000, 10) + " parked:"
 			for _, q := range s.parked {
 				l += " g" + strconv.Itoa(q.rank) + "/" + strconv.FormatUint(q.gid, 10) + "@" + q.label
 			}
